@@ -99,7 +99,7 @@ class Gen:
         alts, sigs = [], set()
         for _ in range(n * 3):
             a = self.type(depth + 1, scope, no_union=True)
-            sg = strip(a).sig() if not isinstance(a, Ann) else a.sig()
+            sg = a.sig()  # a NewType and its supertype are distinct alternatives
             if sg in sigs or (isinstance(a, Prim) and a.p == "none"):
                 continue
             sigs.add(sg)
